@@ -782,11 +782,23 @@ evaluate() const {
       if (r1._type == RT_real || r2._type == RT_real) {
         return Result(r1.as_real() / r2.as_real());
       } else {
-        return Result(r1.as_integer() / r2.as_integer());
+        int divisor = r2.as_integer();
+        if (divisor == 0 || (divisor == -1 && r1.as_integer() == INT_MIN)) {
+          // Not a constant expression; dividing would trap.
+          return Result();
+        }
+        return Result(r1.as_integer() / divisor);
       }
 
     case '%':
-      return Result(r1.as_integer() % r2.as_integer());
+      {
+        int divisor = r2.as_integer();
+        if (divisor == 0 || (divisor == -1 && r1.as_integer() == INT_MIN)) {
+          // Not a constant expression; dividing would trap.
+          return Result();
+        }
+        return Result(r1.as_integer() % divisor);
+      }
 
     case '+':
       if (r1._type == RT_real || r2._type == RT_real) {
